@@ -290,6 +290,11 @@ def run(ctx):
                         if want_dir is not None and d is not None and d != want_dir:
                             ctx.violation("TS-DIR", "%s|%s" % (cfg, name),
                                           "%s cuts the remainder as %s but sets direction %s" % (name, kinds, DIRS.get(d, d)), b.file())
+                        elif want_dir is not None and d is None and nd == sym.mk_field(("p", 1), F["parse_direction"]):
+                            # (`parse_direction` is "the direction that the parser was last mutated from": an error the caller builds
+                            #  with into_error() after this operation reports its offset from that end)
+                            ctx.violation("TS-DIR", "%s|%s|unset" % (cfg, name),
+                                          "%s cuts the remainder as %s but leaves the direction as it was" % (name, kinds), b.file())
                     else:
                         n_err += 1
                         e = t
